@@ -45,12 +45,15 @@ def build_items_rs(unit, work):
     # extra items only the replay build needs (whole functions outside the Verus subset compile fine with rustc)
     all_items += meta.get("replay_items", [])
     seen = set()
+    outer_fns = set(a["name"] for a in all_items if a["kind"] == "fn" and not a.get("in_fn"))
     for attrs in all_items:
+        if attrs.get("in_fn") and attrs["in_fn"] in outer_fns:
+            continue  # nested item: it comes with the enclosing function's original text
         key = (attrs["kind"], attrs["name"], attrs.get("impl"))
         if key in seen:
             continue
         seen.add(key)
-        ex = X.extract(os.path.join(vf.REPO, attrs["file"]), attrs["kind"], attrs["name"], attrs.get("impl"))
+        ex = X.extract(os.path.join(vf.REPO, attrs["file"]), attrs["kind"], attrs["name"], attrs.get("impl"), attrs.get("in_fn"))
         if attrs["kind"] in ("struct", "enum"):
             types.append(_plain_type_text(ex["text"]))
         elif attrs["kind"] == "const":
